@@ -13,22 +13,25 @@ The oracle demands a (culture, shape) only when that culture's own digit regex d
 import itertools
 from decimal import Decimal, Context, ROUND_HALF_EVEN, localcontext, InvalidOperation, DivisionByZero
 
-from lib import common
+from lib import common, numfraccorr
 from lib.common import cps, uncps
 from corr import numlib
 from corr.numlib import CULTURES
 
 PROP = 'C03'
 LEVEL = 'proof'
-PROPS_MODULES = ['RTV.Props.C03']
-GEN = ['nummaps', 'chartables']
+PROPS_MODULES = ['RTV.Props.C03', 'RTV.Props.C03Frac']
+GEN = ['nummaps', 'chartables', 'numfrac']
 REQUIRED_THEOREMS = ['digital_exact', 'digital_exact_neg', 'format_canonical', 'number_literal', 'percent_literal',
                      'digital_round16', 'separators_distinct', 'comma_dot_cultures', 'progressive_rounding_witness',
                      'digital_exact_literal', 'digital_exact_grouped', 'digital_exact_decimal',
                      'digital_exact_grouped_decimal', 'cultures_marks_sane', 'marks_read_are_marks_written',
                      'single_mark_nonstandard_witness', 'format_canonical_general', 'grouping_mark_foreign',
                      'percent_literal_general', 'format_canonical_reads_back', 'number_literal_general',
-                     'decimal_mark_foreign', 'zero_fraction_witness', 'constants_regenerated']
+                     'decimal_mark_foreign', 'zero_fraction_witness', 'constants_regenerated',
+                     # RTV.Props.C03Frac: suffix multipliers, point, fractions, powers
+                     'suffix_value_rounded', 'suffix_exact_literal', 'point_digits_exact', 'fraction_notation_value',
+                     'power_e_exact', 'power_caret_exact', 'x10_caret_witness', 'mixed_roundth_witness', 'numfrac_constants']
 RULE = ('unit: decimal ops on boundary coefficients (10^k, 10^k±1, ...5 ties) + seeded operands, p in {15, 28}; '
         '_get_digital_value / format on every literal shape (plain, grouped, decimal, grouped+decimal, ± sign) x '
         'magnitudes 0..10^15 (10^k, 10^k±1, 15- and 16-digit, 10^-6, 10^-7) x 10 configurations + seeded junk '
@@ -394,6 +397,7 @@ def correspond(ctx):
     unit_decimal(ctx)
     unit_parser(ctx, lits)
     pipeline(ctx, lits)
+    numfraccorr.run(ctx)      # suffix / point / fraction / power paths (RTV.Model.NumFrac, Props/C03Frac)
     ctx.extra['literals_per_culture'] = len(lits)
 
 
